@@ -117,6 +117,36 @@ impl Session {
         Session { tui, ed: Editor::default(), note: false, twin: Machine::new(MachineConfig::default()), part_memory: false, autorun: false, quit: false }
     }
 
+    /// A session started the way `2a-emulator interactive [PROGRAM] [--fc ..]` starts it. The twin is
+    /// built from the library calls the documentation names for those arguments.
+    pub fn new_with(program: Option<&str>, init: crate::args::InitialMachineConfiguration) -> Result<Session, String> {
+        inject::activate();
+        let mut twin = Machine::new(MachineConfig::default());
+        if let Some(p) = program {
+            if let Ok(bc) = compile_file(p) {
+                twin.load(bc);
+            }
+        }
+        twin.set_input_fc(init.fc);
+        twin.set_input_fd(init.fd);
+        twin.set_input_fe(init.fe);
+        twin.set_input_ff(init.ff);
+        twin.set_digital_input1(init.di1);
+        twin.set_temp(init.temp);
+        twin.set_jumper1(init.j1);
+        twin.set_jumper2(init.j2);
+        twin.set_analog_input1(init.ai1);
+        twin.set_analog_input2(init.ai2);
+        twin.set_universal_input_output1(init.uio1);
+        twin.set_universal_input_output2(init.uio2);
+        twin.set_universal_input_output3(init.uio3);
+        let args = InteractiveArgs { program: program.map(std::path::PathBuf::from), init };
+        match Tui::new(&args) {
+            Ok(tui) => Ok(Session { tui, ed: Editor::default(), note: false, twin, part_memory: false, autorun: false, quit: false }),
+            Err(e) => Err(format!("{}", e)),
+        }
+    }
+
     /// Feed one key through the real event dispatch and through the reference; compare.
     pub fn press(&mut self, k: K) -> Result<(), (String, String)> {
         inject::push(key_event(k));
@@ -491,8 +521,11 @@ pub fn run() {
     std::fs::write(dir.join("ok.asm"), "#! mrasm\n LD R0, 7\n ST (0xFF), R0\nL:\n INC R0\n JR L\n").unwrap();
     std::fs::write(dir.join("bad.asm"), "#! mrasm\n FROB\n").unwrap();
     std::fs::write(dir.join("long.asm"), format!("#! mrasm\n{}", " NOP ; filler line with a comment that is rather long indeed\n".repeat(60))).unwrap();
-    // 239 one-byte instructions with labels in between: a listing far longer than any pane
-    std::fs::write(dir.join("big.asm"), format!("#! mrasm\n{}E:\n JR E\n", (0..79).map(|i| format!("L{}:\n INC R0\n NOP ; {}\n INC R1\n", i, i)).collect::<String>())).unwrap();
+    // 236 bytes of one-byte instructions with 40 labels in between: a listing far longer than any pane
+    // (more than 40 labels would be refused by the parser)
+    std::fs::write(dir.join("big.asm"), format!("#! mrasm\n{}E:\n JR E\n", (0..39).map(|i| format!("L{}:\n INC R0\n NOP ; {}\n INC R1\n INC R2\n NOP\n DEC R0\n", i, i)).collect::<String>())).unwrap();
+    // and one the parser refuses for its 80 labels
+    std::fs::write(dir.join("labels.asm"), format!("#! mrasm\n{}E:\n JR E\n", (0..79).map(|i| format!("L{}:\n INC R0\n", i)).collect::<String>())).unwrap();
     std::env::set_current_dir(&dir).expect("chdir to the private directory");
     let cleanup = |d: &std::path::Path| {
         let _ = std::env::set_current_dir("/");
@@ -554,6 +587,82 @@ pub fn run() {
             note(&mut bad, k, l, w);
         }
     }
+    // ---- start-up arguments: every initial-configuration field alone and mixed x no program / each
+    // program file; the session's machine must be the one the library calls give; a few keys and
+    // renderings follow; an unreadable or unparsable program must be refused without a panic ----
+    let mut startups = 0u64;
+    {
+        use crate::args::InitialMachineConfiguration as Init;
+        let d = Init::default();
+        let inits: Vec<(&str, Init)> = vec![
+            ("default", d.clone()),
+            ("--di1", Init { di1: 0xA7, ..d.clone() }),
+            ("--temp", Init { temp: 1.75, ..d.clone() }),
+            ("--j1", Init { j1: true, ..d.clone() }),
+            ("--j2", Init { j2: true, ..d.clone() }),
+            ("--ai1", Init { ai1: 3.25, ..d.clone() }),
+            ("--ai2", Init { ai2: 0.5, ..d.clone() }),
+            ("--uio1", Init { uio1: true, ..d.clone() }),
+            ("--uio2", Init { uio2: true, ..d.clone() }),
+            ("--uio3", Init { uio3: true, ..d.clone() }),
+            ("--fc", Init { fc: 0x1C, ..d.clone() }),
+            ("--fd", Init { fd: 0x2D, ..d.clone() }),
+            ("--fe", Init { fe: 0x3E, ..d.clone() }),
+            ("--ff", Init { ff: 0x4F, ..d.clone() }),
+            ("mixed", Init { di1: 9, temp: 7.0, j1: true, ai1: f32::NAN, ai2: 2.0, uio2: true, fc: 1, fd: 2, fe: 3, ff: 4, ..d.clone() }),
+        ];
+        let follow: Vec<Vec<K>> = vec![vec![], vec![K::E(Key::Enter), K::E(Key::Enter)], typed("load ok.asm"), typed("FC = 5"), vec![K::Ctrl('r'), K::E(Key::Enter)], typed("show memory")];
+        for (iname, init) in &inits {
+            for prog in [None, Some("ok.asm"), Some("long.asm"), Some("big.asm"), Some("labels.asm")] {
+                for f in &follow {
+                    startups += 1;
+                    let line = format!("startup program={:?} init={} then={}", prog, iname, keys_line(f, 76, 28));
+                    mc::watch::progress(|| line.clone());
+                    let r = mc::catch(|| -> Result<(), (String, String)> {
+                        // a program the parser rejects (labels.asm has more than 40 labels) must be refused
+                        if let Some(p) = prog {
+                            if compile_file(p).is_err() {
+                                return match Session::new_with(prog, init.clone()) {
+                                    Err(_) => Ok(()),
+                                    Ok(_) => Err(("startup/accepted-an-invalid-program".to_string(), format!("Tui::new accepted {}", p))),
+                                };
+                            }
+                        }
+                        let mut s = Session::new_with(prog, init.clone()).map_err(|e| ("startup/refused-a-valid-invocation".to_string(), format!("Tui::new refused: {}", e)))?;
+                        {
+                            let ms = s.tui.machine();
+                            if ms.machine != s.twin {
+                                return Err(("startup/machine".into(), format!("the machine of a session started with program {:?} and {} differs from new + load + setters: reads of 0xF0-0xFF {:02x?} vs {:02x?}", prog, iname, (0xF0..=0xFFu8).map(|a| ms.machine.bus().read(a)).collect::<Vec<_>>(), (0xF0..=0xFFu8).map(|a| s.twin.bus().read(a)).collect::<Vec<_>>())));
+                            }
+                        }
+                        for (w, h) in [(76u16, 28u16), (120, 40), (250, 100), (1, 1), (80, 24)] {
+                            s.render(w, h);
+                        }
+                        for k in f {
+                            s.press(*k)?;
+                        }
+                        s.render(100, 30);
+                        Ok(())
+                    });
+                    match r {
+                        Ok(Ok(())) => {}
+                        Ok(Err((k, w))) => note(&mut bad, k, line, w),
+                        Err(p) => note(&mut bad, panic_key(&p), line, format!("panic at {}: {}", p.site(), p.msg)),
+                    }
+                }
+            }
+        }
+        for prog in ["bad.asm", "does-not-exist.asm"] {
+            startups += 1;
+            let line = format!("startup program={:?} init=default then=", prog);
+            match mc::catch(|| Session::new_with(Some(prog), d.clone()).is_ok()) {
+                Ok(false) => {}
+                Ok(true) => note(&mut bad, "startup/accepted-an-invalid-program".into(), line, format!("Tui::new accepted {}", prog)),
+                Err(p) => note(&mut bad, panic_key(&p), line, format!("panic at {}: {}", p.site(), p.msg)),
+            }
+        }
+    }
+    mc::watch::idle();
     // ---- all sizes 1x1 .. 250x100 for representative session states ----
     let reps: Vec<Vec<K>> = vec![
         vec![],
@@ -771,7 +880,8 @@ pub fn run() {
     ctx.set("states", states);
     ctx.set("transitions", transitions + cmd_runs + ctl_runs);
     ctx.set("traces_validated_against_impl", transitions + cmd_runs + ctl_runs);
-    ctx.set("evaluations", transitions + cmd_runs + ctl_runs + renders);
+    ctx.set("evaluations", transitions + cmd_runs + ctl_runs + renders + startups);
+    ctx.set("startup_sessions", startups);
     ctx.set("distinct_nontrivial", states + cmd_accepted);
     ctx.set("rule", "editor: BFS by replay over a 22-key alphabet (characters incl. multi-byte, Enter, Tab, BackTab, arrows, Home/End, Backspace/Delete), complete key-sequence tree to the depth (no deduplication; distinct visible states are only counted); every key goes through the real Tui::handle_event and is compared with REF-EDIT / REF-CMD and a twin Machine driven by library calls; every transition renders the real Interface into a Buffer; rendering: every chosen editor state x all widths 76..250 and heights 28..100, 8 session states x all sizes 1x1..250x100, long inputs around the widget width; commands: the sentence family and all short strings typed and submitted; control keys: all ordered pairs after 20 machine states");
     ctx.set("exhaustive", true);
